@@ -132,6 +132,9 @@ class FnCompiler:
             if key not in env:
                 raise Fail("unknown attribute %s (line %d)" % (key, e.lineno))
             return vname("self_" + e.attr), env[key], True
+        if isinstance(e, ast.Attribute) and e.attr == "shape" and isinstance(e.value, ast.Name) and env.get(e.value.id) == L(Z) \
+                and e.value.id in self.spec.get("shape_modelled", []):
+            return vname(e.value.id), L(Z), True           # a tensor that the unit models by its shape
         if isinstance(e, ast.Attribute) and e.attr == "requires_grad":
             c, t, p = self.expr(e.value, env)
             if t != O:
@@ -398,6 +401,12 @@ class FnCompiler:
                                        lambda *a: "(let '(%s) := %s in %s %s %s)" % (", ".join(us), self.key_var(fld), coqfn, " ".join(us), " ".join(a)),
                                        result_pure=False)
                 return code, rtype, False
+            if ast.unparse(f) == "torch.numel" and len(e.args) == 1:
+                c, t, p = self.expr(e.args[0], env)
+                if t != L(Z):
+                    raise Fail("torch.numel of %r (tensors are modelled by their shapes here)" % (t,))
+                code, pure = self.combine([(c, p)], lambda a: "(py_numel %s)" % a)
+                return code, Z, pure
             if ast.unparse(f) == "copy.copy" and len(e.args) == 1:
                 return self.expr(e.args[0], env)              # values of the model are immutable
             if f.attr == "lower" and not e.args:
@@ -938,6 +947,11 @@ UNITS = {
              calls={"self._uniq.map_unique_objs": ("uniquifier_map_unique_objs", "self._uniq", [L(O)], L(O))}),
     ], "From XV Require Import Gen.PyUnique.\n"),
 }
+UNITS["PyTensorPacker"] = ("xitorch/_utils/misc.py", [
+    # tensors are modelled by their shapes: torch.numel(p) is the product of the shape, p.shape the shape itself
+    dict(qual="TensorPacker.__init__", coq="tensorpacker_init", params=[("tensors", L(L(Z)))], shape_modelled=["p"],
+         locals={"self.idx_shapes": L(T(Z, Z, L(Z)))}),
+])
 UNITS["PyEditable"] = ("xitorch/_core/editable_module.py", [
     # the search loop of _get_unique_params_idxs (between the cache look-up and the cache update)
     dict(qual="EditableModule._get_unique_params_idxs", coq="editable_unique_params_idxs", params=[],
@@ -978,6 +992,7 @@ RELEVANT = {
     "PyPackerIdx": ["C20"],
     "PyPureFn": ["C09", "C10"],
     "PyEditable": ["C09", "C10"],
+    "PyTensorPacker": ["C07", "C08"],
 }
 LAST_INFO = {}
 
